@@ -34,6 +34,9 @@ type tplItem struct {
 	regions []int    // hole: ids of the scope-depth regions open when the sub-compilation runs (innermost last)
 	arg     string   // hole: source text of the AST argument being compiled (e.g. e.Cond)
 	loop    string   // loop iteration vector of the lowering function at emission time
+	fn      string   // hole: the lowering function (frame) that ran the sub-compilation
+	argDesc string   // hole: what is compiled, resolved through parameters (e#0.Cond, <query:key>, …)
+	chain   string   // hole: the lowering functions on the executor's call stack, outermost first
 }
 
 // tplHoleRec logs one sub-compilation in program order (kept even when the hole is chosen empty).
@@ -64,6 +67,7 @@ const (
 	tvNil
 	tvStr
 	tvRec // a concrete AST record given as input (fields known; absent fields are zero values)
+	tvItem // an instruction taken out of c.codes (a copy of the template item)
 )
 
 type tVal struct {
@@ -78,6 +82,51 @@ type tVal struct {
 	desc   string
 	elems  []tVal
 	fields map[string]tVal
+	item   *tplItem
+}
+
+// zeroOf is the zero value of a static type in the executor's value domain.
+func zeroOf(t types.Type) tVal {
+	switch {
+	case t == nil:
+		return tVal{k: tvNil}
+	case t.String() == "string":
+		return tVal{k: tvStr, s: ""}
+	case t.String() == "bool":
+		return tVal{k: tvBool, b: false}
+	case isIntType(t):
+		return tVal{k: tvInt, i: 0}
+	}
+	if _, isSlice := t.Underlying().(*types.Slice); isSlice {
+		return tVal{k: tvList, i: 0}
+	}
+	if bt, ok := t.Underlying().(*types.Basic); ok && bt.Info()&types.IsInteger != 0 {
+		return tVal{k: tvInt, i: 0}
+	}
+	return tVal{k: tvNil}
+}
+
+// deepCopy copies a record tree so that one run's field assignments do not leak into the next run.
+func deepCopy(v tVal) tVal {
+	switch v.k {
+	case tvRec:
+		nv := v
+		nv.fields = map[string]tVal{}
+		for k, f := range v.fields {
+			nv.fields[k] = deepCopy(f)
+		}
+		return nv
+	case tvList:
+		nv := v
+		if v.elems != nil {
+			nv.elems = make([]tVal, len(v.elems))
+			for i, e := range v.elems {
+				nv.elems[i] = deepCopy(e)
+			}
+		}
+		return nv
+	}
+	return v
 }
 
 func rec(typ string, kv ...any) tVal {
@@ -159,6 +208,8 @@ type tplRun struct {
 	regions []int // open scope-depth regions (ids), innermost last
 	regionSeq int
 	curArg  string
+	curArgDesc string
+	inlinePred func(short string, arg tVal) bool // root-specific: run this sub-compilation instead of leaving a hole
 	holeLog []tplHoleRec
 }
 
@@ -316,6 +367,9 @@ func (r *tplRun) eval(e ast.Expr, env *tplEnv) tVal {
 				}
 			}
 		}
+		if v, ok := r.astHelper(x, env); ok {
+			return v
+		}
 		switch calleeName(r.info, x) {
 		case "gojq.compiler.newVariable", "gojq.compiler.pushVariable", "gojq.compiler.createVariable":
 			name, known := "", true
@@ -467,7 +521,7 @@ func (r *tplRun) eval(e ast.Expr, env *tplEnv) tVal {
 				}
 			}
 			if keyed {
-				return tVal{k: tvNil} // absent field of a keyed literal: zero value
+				return zeroOf(r.info.TypeOf(x)) // absent field of a keyed literal: zero value
 			}
 		}
 		if s, ok := r.strFacts[r.describe(x, env)]; ok {
@@ -475,6 +529,12 @@ func (r *tplRun) eval(e ast.Expr, env *tplEnv) tVal {
 		}
 		return tVal{k: tvUnknown, desc: r.describe(x, env)}
 	case *ast.IndexExpr:
+		if isCodesExpr(r, x.X) {
+			if i, ok := r.evalInt(x.Index, env); ok && i >= 0 && i < len(r.items) {
+				it := r.items[i]
+				return tVal{k: tvItem, item: &it}
+			}
+		}
 		if a := r.eval(x.X, env); a.k == tvStr {
 			if i, ok := r.evalInt(x.Index, env); ok && i >= 0 && i < len(a.s) {
 				return tVal{k: tvInt, i: int(a.s[i])}
@@ -1108,6 +1168,7 @@ func (r *tplRun) hole(name string, pop, push int, pos token.Pos, canBeEmpty bool
 	regions := append([]int(nil), r.regions...)
 	mk := func(single bool) tplItem {
 		return tplItem{isHole: true, single: single, holePop: pop, holePush: push, visible: visible, regions: regions, arg: r.curArg, loop: fmt.Sprint(r.loopIx),
+			fn: r.frame().fn.Name.Name, argDesc: r.curArgDesc, chain: r.chain(),
 			ins: bcIns{Op: "hole", Target: -1, Var: -1, Pos: pos, Hole: name}}
 	}
 	r.holeLog = append(r.holeLog, tplHoleRec{name: name, arg: r.curArg, regions: regions, frame: len(r.frames), fn: r.frame().fn.Name.Name})
@@ -1127,6 +1188,14 @@ func (r *tplRun) hole(name string, pop, push int, pos token.Pos, canBeEmpty bool
 }
 
 // ---- statements ----
+
+func (r *tplRun) chain() string {
+	var names []string
+	for _, f := range r.frames {
+		names = append(names, f.fn.Name.Name)
+	}
+	return strings.Join(names, ">")
+}
 
 func (r *tplRun) frame() *tplFrame { return r.frames[len(r.frames)-1] }
 
@@ -1178,6 +1247,7 @@ func (r *tplRun) execFuncLit(fn tVal) {
 
 var tplHoleNet = map[string][2]int{
 	"compilePattern": {1, 0}, "compileObjectKeyVal": {0, 2},
+	"compileImport": {0, 0}, // function definitions behind jumps and variable stores of data imports: nothing consumed, nothing left
 }
 
 // holeFor: calls into the compiler that are modelled as holes or inlined.
@@ -1191,6 +1261,11 @@ func (r *tplRun) compilerCall(call *ast.CallExpr, env *tplEnv) bool {
 	case "append":
 		cl, ok := r.codeLit(call.Args[0])
 		if !ok {
+			// an instruction taken out of c.codes earlier and appended again
+			if v := r.eval(call.Args[0], env); v.k == tvItem && v.item != nil {
+				r.items = append(r.items, *v.item)
+				return true
+			}
 			r.unsupported("c.append of a non-literal at %s", r.c.Pos(call.Pos()))
 		}
 		r.emit(r.insOfLit(cl, env))
@@ -1217,9 +1292,19 @@ func (r *tplRun) compilerCall(call *ast.CallExpr, env *tplEnv) bool {
 		}
 		return false
 	}
-	if r.inline[short] && r.depth < 4 {
+	if r.inline[short] && (r.depth < 4 || (r.inlinePred != nil && r.depth < 14)) {
 		r.inlineCall(short, call, env)
 		return true
+	}
+	if r.inlinePred != nil && r.depth < 12 && len(call.Args) > 0 {
+		a := call.Args[len(call.Args)-1]
+		if short == "compileQuery" || short == "compileTerm" || short == "compileIndex" {
+			a = call.Args[0]
+		}
+		if r.inlinePred(short, r.eval(a, env)) {
+			r.inlineCall(short, call, env)
+			return true
+		}
 	}
 	eff, ok := tplHoleNet[short]
 	if !ok {
@@ -1227,15 +1312,65 @@ func (r *tplRun) compilerCall(call *ast.CallExpr, env *tplEnv) bool {
 	}
 	// which sub-compilations may emit nothing: a query/term may be the identity
 	canBeEmpty := eff[0] == eff[1] && (short == "compileQuery" || short == "compileTerm" || short == "compile")
-	r.curArg = ""
+	r.curArg, r.curArgDesc = "", ""
 	if len(call.Args) > 0 {
-		r.curArg = r.src(call.Args[len(call.Args)-1])
+		a := call.Args[len(call.Args)-1]
 		if short == "compileQuery" || short == "compileTerm" {
-			r.curArg = r.src(call.Args[0])
+			a = call.Args[0]
+		}
+		r.curArg = r.src(a)
+		switch v := r.eval(a, env); {
+		case v.k == tvRec || (v.k == tvAST && v.astLit == nil && v.desc != ""):
+			r.curArgDesc = "<" + v.desc + ">"
+		case v.k == tvUnknown && v.desc != "":
+			r.curArgDesc = v.desc
+		default:
+			r.curArgDesc = r.describe(a, env)
 		}
 	}
 	r.hole(short, eff[0], eff[1], call.Pos(), canBeEmpty)
 	return true
+}
+
+// tplASTHelpers: pure methods of AST nodes that build or select nodes; executed when the receiver is concrete.
+var tplASTHelpers = map[string]bool{"Suffix.toTerm": true}
+
+func (r *tplRun) astHelper(call *ast.CallExpr, env *tplEnv) (tVal, bool) {
+	sel, ok := unparen(call.Fun).(*ast.SelectorExpr)
+	if !ok {
+		return tVal{}, false
+	}
+	name := calleeName(r.info, call)
+	key := strings.TrimPrefix(name, "gojq.")
+	if !tplASTHelpers[key] {
+		return tVal{}, false
+	}
+	recv := r.eval(sel.X, env)
+	if recv.k != tvRec && !(recv.k == tvAST && recv.astLit != nil) {
+		return tVal{}, false
+	}
+	fd := r.c.Decl(r.c.Gojq, key)
+	if fd == nil || fd.Recv == nil || len(fd.Recv.List) != 1 || len(fd.Recv.List[0].Names) != 1 {
+		return tVal{}, false
+	}
+	henv := newTplEnv(nil)
+	henv.define(r.info.Defs[fd.Recv.List[0].Names[0]], recv)
+	k := 0
+	for _, f := range fd.Type.Params.List {
+		for _, nm := range f.Names {
+			if k < len(call.Args) {
+				henv.define(r.info.Defs[nm], r.eval(call.Args[k], env))
+			}
+			k++
+		}
+	}
+	r.depth++
+	vals := r.runFunc(fd, henv)
+	r.depth--
+	if len(vals) == 0 {
+		return tVal{k: tvNil}, true
+	}
+	return vals[0], true
 }
 
 // tplEmits: does the compiler method `short` append instructions, directly or through other compiler methods?
@@ -1345,6 +1480,11 @@ func (r *tplRun) assign(lhs ast.Expr, v tVal, env *tplEnv, define bool) {
 		// c.codes = c.codes[:K]
 		if isCodesExpr(r, x) {
 			r.unsupported("assignment to c.codes that is not a truncation")
+		}
+		// field of an input record (a pointer to an AST node): visible through every alias
+		if base := r.eval(x.X, env); base.k == tvRec {
+			base.fields[x.Sel.Name] = v
+			return
 		}
 		// X.op = K on an item
 		if x.Sel.Name == "op" {
@@ -1886,11 +2026,13 @@ type tplVariant struct {
 }
 
 // tplExplore enumerates the variants of one root function by replaying decision vectors depth-first.
+var tplCurrentPred func(short string, arg tVal) bool
+
 func tplExplore(c *Ctx, fd *ast.FuncDecl, bind func(r *tplRun, env *tplEnv), inline map[string]bool, limit int) []tplVariant {
 	var out []tplVariant
 	choice := []int{}
 	for n := 0; n < limit; n++ {
-		r := &tplRun{c: c, info: c.Gojq.TypesInfo, choice: choice, memo: map[string]int{}, inline: inline, strFacts: map[string]string{}}
+		r := &tplRun{c: c, info: c.Gojq.TypesInfo, choice: choice, memo: map[string]int{}, inline: inline, strFacts: map[string]string{}, inlinePred: tplCurrentPred}
 		env := newTplEnv(nil)
 		var v tplVariant
 		func() {
